@@ -302,6 +302,11 @@ UNARY24 = None
 
 
 def cases(tier, seed):
+    from .. import produced
+    return _cases(tier, seed) + produced.case_list()
+
+
+def _cases(tier, seed):
     out = []
     shapes = SHAPES + ([(2, 3, 2), (3, 3), (4, 2), (2, 4), (1, 1, 1), (8,), (2, 2, 1)] if tier == "thorough" else [])
     for shape in shapes:
@@ -327,6 +332,9 @@ def cases(tier, seed):
 
 
 def run_case(case, R):
+    if case.get("k") == "produced":
+        from .. import produced
+        return produced.run(R, ID, case["i0"], case["i1"])
     k = case["k"]
     if k in ("unary", "index", "one"):
         shape = tuple(case["s"])
